@@ -660,6 +660,55 @@ def run(ctx):
         run_schema(ctx, n, not ctx.quick())
     if not ctx.quick():
         run_schema(ctx, "score_2.0.0", True, ns="sc:")
+    run_cross_schema_history(ctx)
+
+
+def run_cross_schema_history(ctx, case=None):
+    """One process, several schemas that carry the SAME version label (a bundled schema and schemas generated from it),
+    the same cells converted under each in turn and again in reverse: every answer is the one for the schema in force.
+    Expected values come from our own reading of each schema's XML (a short name that the schema lacks stays as
+    written).  Seeded change C03-g (results memoised per version label) needs exactly this history."""
+    import pandas as pd
+    from hed.models.df_util import convert_to_form
+    seeds = case["seeds"] if case else [ctx.seed * 100, ctx.seed * 100 + 50]
+    names = ["8.3.0"] + [f"gen:{x}" for x in seeds]
+    table = {}
+    for n in names:
+        by_short = {}
+        for l in read_longs(n):
+            by_short.setdefault(l.split("/")[-1].casefold(), l)
+        table[n] = by_short
+    shorts = []
+    for n in names[1:]:
+        own = [l.split("/")[-1] for l in read_longs(n) if l.split("/")[-1].startswith("Gen-") and not l.endswith("/#")]
+        shorts += own[:6]
+    shorts += ["Red", "Sensory-event"]
+    cells = shorts + [f"({a}, {b})" for a, b in zip(shorts, shorts[1:])][:8]
+
+    def want(n, cell, form):
+        def one(tok):
+            l = table[n].get(tok.casefold())
+            return tok if l is None else (l if form == "long_tag" else l.split("/")[-1])
+        if cell.startswith("("):
+            a, b = cell[1:-1].split(", ")
+            return f"({one(a)},{one(b)})"
+        return one(cell)
+    schemas = {n: load_impl(n) for n in names}
+    order = names + names[::-1]
+    n_checked = 0
+    for step, n in enumerate(order):
+        for form in ("long_tag", "short_tag"):
+            got = impl_series(cells, schemas[n], form)[1]
+            for c, g in zip(cells, got):
+                n_checked += 1
+                w = want(n, c, form)
+                if g != w:
+                    ctx.violation(f"convert_to_form({form}): answer is not the one of the schema in force (cross-schema history)",
+                                  {"bulk": "cross-schema-history", "seeds": seeds, "order": order, "step": step,
+                                   "schema": n, "form": form, "text": c}, {"got": g, "expected": w})
+                    return
+    ctx.count("bulk:cross-schema-history:cells", n_checked)
+
 
 
 def replay_bulk(ctx, case):
@@ -710,6 +759,8 @@ def replay(ctx, rec):
     if not case:
         print("nothing to replay (obligation-only record):", rec.get("broken_obligations"))
         return
+    if case.get("bulk") == "cross-schema-history":
+        return run_cross_schema_history(ctx, case)
     if case.get("bulk"):
         return replay_bulk(ctx, case)
     name, ns = case["schema"], case.get("ns", "")
